@@ -313,6 +313,73 @@ def run_case(mido, cfg, acc):
                 os.environ[k] = v
 
 
+def default_laziness(mido, acc):
+    """With the load argument left out the module is imported on first use,
+    not by the constructor / set_backend; load=True imports at once."""
+    import mc_fake_recorder as rec
+    from mido.backends.backend import Backend
+    mod = modname(True, True)
+
+    def forget():
+        for m in list(sys.modules):
+            if m.startswith('mcfake_'):
+                del sys.modules[m]
+        del rec.CALLS[:]
+
+    def imported():
+        return [c for c in rec.CALLS if c[0] == 'import']
+
+    steps = [
+        ('Backend(name)', lambda: Backend(mod), False),
+        ('Backend(name, use_environ=False)',
+         lambda: Backend(mod, use_environ=False), False),
+        ('Backend(name, load=True)', lambda: Backend(mod, load=True), True),
+        ('Backend(name, api="X")', lambda: Backend(mod, api='X'), False),
+    ]
+    for label, make_, eager in steps:
+        acc.evals += 1
+        acc.nontrivial += 1
+        case = {'kind': 'laziness', 'how': label}
+        forget()
+        try:
+            be = make_()
+            first = len(imported())
+            if bool(first) != eager:
+                acc.violation(f'default-laziness/{label}',
+                              f'{label}: module imported by the constructor: '
+                              f'{bool(first)}, expected {eager}', case)
+                continue
+            be.get_input_names()
+            if len(imported()) != 1:
+                acc.violation(f'default-laziness/{label}/first-use',
+                              f'{label}: imports after the first use: '
+                              f'{imported()}', case)
+        except Exception as e:
+            acc.violation(f'default-laziness/{label}/{type(e).__name__}',
+                          f'{e!r}', case)
+    # set_backend(name) without load
+    acc.evals += 1
+    forget()
+    old_backend = mido.backend
+    try:
+        mido.set_backend(mod)
+        if imported():
+            acc.violation('default-laziness/set_backend(name)',
+                          'set_backend(name) imported the module before any '
+                          'use', {'kind': 'laziness', 'how': 'set_backend'})
+        mido.get_input_names()
+        if len(imported()) != 1:
+            acc.violation('default-laziness/set_backend(name)/first-use',
+                          f'imports after first use: {imported()}',
+                          {'kind': 'laziness', 'how': 'set_backend'})
+    except Exception as e:
+        acc.violation(f'default-laziness/set_backend/{type(e).__name__}',
+                      f'{e!r}', {'kind': 'laziness', 'how': 'set_backend'})
+    finally:
+        mido.set_backend(old_backend)
+        forget()
+
+
 def raising_cases(mido, acc):
     """A port constructor that raises: the exception reaches the caller and
     nothing else is constructed in its place (in particular no Input/Output
@@ -446,6 +513,7 @@ def worker(shard):
                         continue
                     run_case(mido, dict(cfg, via_set_backend=via), acc)
             raising_cases(mido, acc)
+            default_laziness(mido, acc)
             device_lists(mido, acc)
             acc.sample({'set_backend': ['object', 'name']}, cap=1)
     finally:
@@ -500,6 +568,8 @@ def check_case(case):
             device_lists(mido, acc)
         elif case.get('kind') == 'raising':
             raising_cases(mido, acc)
+        elif case.get('kind') == 'laziness':
+            default_laziness(mido, acc)
         else:
             cfg = dict(case)
             cfg['spec'] = tuple(cfg['spec'])
